@@ -35,6 +35,8 @@ type Result struct {
 	Sig    string
 	Stats  map[string]uint64
 	Sample interface{}
+	Cmp    uint64
+	HasCmp bool
 }
 
 type Prop struct {
@@ -161,7 +163,12 @@ func main() {
 			i := 0
 			t.Trace = func(label string, n, v uint64) { out("D %d %s n=%d v=%d", i, label, n, v); i++ }
 		}
-		r := runWorld(p, t, false)
+		r := runWorld(p, t, *flagTrace)
+		if *flagTrace {
+			for _, l := range r.Log {
+				out("L %s", l)
+			}
+		}
 		if tf != nil {
 			tf.Close()
 		}
@@ -175,6 +182,9 @@ func main() {
 		}
 		if r.Sample != nil && len(samples) < 3 && (idx-*flagFrom)%97 == 0 {
 			samples = append(samples, r.Sample)
+		}
+		if r.HasCmp && r.V == nil {
+			out("C %d %016x", idx, r.Cmp)
 		}
 		if r.V == nil {
 			if *flagDigests {
@@ -247,6 +257,7 @@ func runWorld(p *Prop, t *simrt.Tape, trace bool) (res Result) {
 	res.Sig = w.signature()
 	res.Sample = w.sample
 	res.Stats = w.collectStats()
+	res.Cmp, res.HasCmp = w.cmp, w.cmpSet
 	return
 }
 
